@@ -33,6 +33,12 @@ CMP_SWAP = {ast.Eq: ast.NotEq, ast.NotEq: ast.Eq, ast.Lt: ast.LtE, ast.LtE: ast.
             ast.Is: ast.IsNot, ast.IsNot: ast.Is, ast.In: ast.NotIn, ast.NotIn: ast.In}
 
 
+METHOD_SWAP = {"startswith": "endswith", "endswith": "startswith", "lstrip": "rstrip", "rstrip": "lstrip", "lower": "upper", "upper": "lower",
+               "split": "rsplit", "rsplit": "split", "append": "extend", "strip": "rstrip", "get": "pop", "find": "rfind", "min": "max", "max": "min"}
+DELIM_SWAP = {"/": "\\", "?": "#", "#": "?", "&": ";", "=": ":", ":": "=", "@": ":", ".": ",", "%": "#", "//": "/", "://": ":/", "": " ", " ": "", "-": "_",
+              "|": "/", "http": "https", "https": "http", "www": "ww", "amp-": "amp", "index": "home", "*": "!", "!": "*"}
+
+
 def mutants_of(tree):
     """yields (kind, lineno, before, mutate(tree_copy_node))  as (path, description, fn) where fn mutates the node found at `path` in a deep copy"""
     out = []
@@ -52,6 +58,13 @@ def mutants_of(tree):
         elif isinstance(n, ast.Constant) and isinstance(n.value, int) and not isinstance(n.value, bool) and abs(n.value) < 1000:
             out.append((idx, "int+1", ln, lambda m: setattr(m, "value", m.value + 1)))
             out.append((idx, "int-1", ln, lambda m: setattr(m, "value", m.value - 1)))
+        if isinstance(n, ast.Attribute) and n.attr in METHOD_SWAP and os.environ.get("MUTC_OPS", "") == "2":
+            out.append((idx, "method-swap", ln, lambda m: setattr(m, "attr", METHOD_SWAP[m.attr])))
+        if isinstance(n, ast.Constant) and isinstance(n.value, str) and n.value in DELIM_SWAP and os.environ.get("MUTC_OPS", "") == "2":
+            out.append((idx, "delimiter-swap", ln, lambda m: setattr(m, "value", DELIM_SWAP[m.value])))
+        if isinstance(n, ast.Call) and len(n.args) == 2 and not n.keywords and os.environ.get("MUTC_OPS", "") == "2" \
+                and not any(isinstance(a, ast.Starred) for a in n.args):
+            out.append((idx, "swap-args", ln, lambda m: m.args.reverse()))
         if isinstance(n, ast.Break):
             out.append((idx, "break->continue", ln, "swap-break"))
         if isinstance(n, ast.Continue):
@@ -150,6 +163,9 @@ def main():
         for rel in files:
             src = open(os.path.join(WORK, "w0", rel)).read()
             ms = mutants_of(ast.parse(src))
+            kinds = [k for k in os.environ.get("MUTC_KINDS", "").split(",") if k]
+            if kinds:
+                ms = [m for m in ms if m[1] in kinds]
             rnd.shuffle(ms)
             for (idx, kind, ln, how) in ms[:per_file]:
                 jobs.append([rel, idx, kind, ln, how, FILE_PROPS.get(rel, []), src])
